@@ -21,7 +21,7 @@ KIND_DTYPE = {"b1": "?"}
 KIND_CODE = {"i1": 1, "i2": 2, "i4": 3, "i8": 4, "u1": 5, "u2": 6, "u4": 7, "u8": 8, "f4": 9, "f8": 10, "b1": 0x21, "c8": 0x08000c, "c16": 0x10000d}
 WRAPPERS = {"Int8": "i1", "Int16": "i2", "Int32": "i4", "Int64": "i8", "Uint8": "u1", "Uint16": "u2", "Uint32": "u4", "Uint64": "u8",
             "SingleFloat": "f4", "DoubleFloat": "f8"}
-NAMES = ["g", "Group", "it's", "a/b", "", "ünï", "日本", "c", "chan 1", "'", "rack'/'slot", "raw'/", "TDSm", "x TDSm y"]
+NAMES = ["g", "Group", "it's", "a/b", "", "ünï", "日本", "c", "chan 1", "'", "rack'/'slot", "raw'/", "TDSm", "x TDSm y", "Load 100%", "%s {0}", "group"]
 INT_EDGES = [0, 1, -1, 2 ** 31 - 1, 2 ** 31, -2 ** 31, -2 ** 31 - 1, 2 ** 63 - 1, 2 ** 63, -2 ** 63, 2 ** 64 - 1, 127, 128, -128, -129, 255, 256, 32767,
              32768, -32768, -32769, 65535, 65536, 2 ** 32 - 1, 2 ** 32,
              0x6d534454, 0x68534454]      # the little-endian bytes of these two spell the segment tags TDSm / TDSh
@@ -235,6 +235,22 @@ def draw(rnd, max_sessions=3, max_segments=4):
                 perm = [ob for ob in again if ob[0] == "C"]
                 perm = perm[1:] + perm[:1] if rnd.random() < 0.5 else perm[::-1]
                 sess.append(rest + perm)
+            elif len(chs) >= 2 and rnd.random() < 0.3:
+                # ... or a channel stops: the next calls list a leading / trailing part of the same objects (a shrinking object list
+                # is a NEW object list), once or twice, with fresh data of the same kinds
+                keep = chs[:rnd.randint(1, len(chs) - 1)] if rnd.random() < 0.6 else chs[rnd.randint(1, len(chs) - 1):]
+                for _rep in range(rnd.randint(1, 2)):
+                    part = []
+                    for ob in keep:
+                        d = ob[3]
+                        if d[0] == "K":
+                            d = ("K", d[1], rand_array(rnd, d[1], max(len(d[2]), 1)))
+                        elif d[0] == "S":
+                            d = ("S", ["".join(rnd.choice("rsü") for _ in range(rnd.randint(0, 3))) for _ in d[1]], d[2])
+                        elif d[0] == "D":
+                            d = ("D", [rand_micros(rnd) for _ in d[1]], d[2])
+                        part.append(("C", ob[1], ob[2], d, []))
+                    sess.append(part)
         prog.append(sess)
     return prog
 
